@@ -500,4 +500,11 @@ def r11_task_results_fit_declared_types(ctx):
     ctx.check(ok, t.qual + "#declared-dtype", "task results are checked against / converted to the declared output types" if ok else "the output dtypes given to apply_ufunc come from the first run only and the task hands back its arrays unchecked: a later run whose bucket has a wider type (adc_bit_resolution swept 8 -> 16: uint16 into uint8) is silently wrapped on the dask path, sequential execution keeps the values", where=t, node=t.node)
 
 
-RULES = [r11_task_results_fit_declared_types, r10_parallel_rows_read_their_own_columns, r9_files_attributed_one_to_one, r7_every_task_runs_its_own_pipeline, r8_evolved_algorithm_comes_back, r6_names_values_same_order, r1_sibling_run_space, r2_no_shared_state_in_task, r3_one_suffix_per_run, r4_task_independence, r5_island_order]
+def r12_both_paths_start_from_a_private_copy(ctx):
+    """Sequential and parallel runs agree only if BOTH start from a private deep copy of the whole processor (detector memory such as trapped charge included) made before the run's values are set: create_new_processor / update_processor (shared with C06.R1; the dask side is R4)."""
+    from props.C06 import r1_fresh_copy_per_run
+
+    r1_fresh_copy_per_run(ctx)
+
+
+RULES = [r12_both_paths_start_from_a_private_copy, r11_task_results_fit_declared_types, r10_parallel_rows_read_their_own_columns, r9_files_attributed_one_to_one, r7_every_task_runs_its_own_pipeline, r8_evolved_algorithm_comes_back, r6_names_values_same_order, r1_sibling_run_space, r2_no_shared_state_in_task, r3_one_suffix_per_run, r4_task_independence, r5_island_order]
